@@ -367,7 +367,20 @@ namespace
                                 {
                                     runtime.context_active().clear_values();
                                     frame.clear_value_scope();
-                                    return m_code.empty() ? result::seek_start : result::exchange;
+                                    if (m_code.empty())
+                                    { // empty body: the iteration is over right here, it counts for the cap as well
+                                        if (!runtime.context_active().can_suspend())
+                                        {
+                                            m_loop_count++;
+                                            auto max = runtime.configuration().max_loop_iterations_in_unscheduled;
+                                            if (max > 0 && m_loop_count >= max)
+                                            {
+                                                return result::ok;
+                                            }
+                                        }
+                                        return result::seek_start;
+                                    }
+                                    return result::exchange;
                                 }
                             }
                             else if (res->empty())
